@@ -55,6 +55,9 @@ fn main() {
     let ctx = Ctx::new(thorough, seed, Duration::from_secs(budget));
     let res = match prop.as_str() {
         "C01" => props::c01::run(&ctx),
+        "C02" => props::c02::run(&ctx),
+        "C03" => props::c03::run(&ctx),
+        "C04" => props::c04::run(&ctx),
         _ => {
             eprintln!("unknown or unclaimed property {}", prop);
             std::process::exit(2);
